@@ -197,6 +197,8 @@ func sqtValue(pos, vtype, s string) any {
 		return "v"
 	}
 	switch vtype {
+	case "number": // a harmless probe value only (which keys does the code accept?)
+		return json.Number(s)
 	case "array":
 		return []any{s, "v"}
 	case "object":
